@@ -55,7 +55,7 @@ func NewWriteMultipleRegistersRequestTCP(unitID uint8, startAddress uint16, data
 		return nil, errors.New("data length must be even number of bytes")
 	}
 	registerCount := uint16(registerByteCount / 2)
-	if registerCount == 0 || registerCount > 124 {
+	if registerCount == 0 || registerCount > 123 {
 		return nil, fmt.Errorf("registers count out of range (1-124): %v", registerCount)
 	}
 
@@ -144,7 +144,7 @@ func NewWriteMultipleRegistersRequestRTU(unitID uint8, startAddress uint16, data
 		return nil, errors.New("data length must be even number of bytes")
 	}
 	registerCount := uint16(registerByteCount / 2)
-	if registerCount == 0 || registerCount > 124 {
+	if registerCount == 0 || registerCount > 123 {
 		return nil, fmt.Errorf("registers count out of range (1-124): %v", registerCount)
 	}
 
